@@ -38,6 +38,8 @@ def case_strategy(draw, big=False):
     case['dist'] = gen.r6(draw(gen.logf(1.0, 1e6)))
     case['pwr2'] = gen.r6(draw(gen.logf(1e-3, 1e6)))
     case['dist2'] = gen.r6(draw(gen.logf(1.0, 1e6)))
+    # options that must not influence any number: time measurement
+    case['timing'] = draw(st.integers(0, 3)) == 0
     return case
 
 
@@ -50,6 +52,8 @@ def check(case):
     if why:
         return Result(skipped=why)
     labels = common.base_labels(case)
+    if case.get('timing'):
+        labels.append('timing-on')
     try:
         m = common.solved(case)
     except build.Rejected as e:
